@@ -45,3 +45,11 @@ __CPROVER_requires(__CPROVER_r_ok(key, sizeof(long)))
 __CPROVER_ensures(hm_find_post(__CPROVER_return_value))
 __CPROVER_assigns()
 ;
+extern void* gv_a_last; extern void* gv_b_last;
+_Bool hm_swap_post(void);
+/* swap: only the two table objects and the `next` link of each table's last item */
+void w_HashMap_swap(void* a, void* b)
+__CPROVER_ensures(hm_swap_post())
+__CPROVER_assigns(__CPROVER_object_whole(a); __CPROVER_object_whole(b);
+                  gv_a_last != 0: HI(gv_a_last)->next; gv_b_last != 0: HI(gv_b_last)->next)
+;
